@@ -903,3 +903,74 @@ Proof.
   destruct HS as (-> & V' & I'). exists s, r', o'. split; [reflexivity|]. split; [exact V'|]. cbv zeta. rewrite I'.
   split; [lia|]. split; [exact Hmin|exact Hs].
 Qed.
+
+(* ---------- counts: vi_motion repeats the scan, and stops repeating when one reports failure ---------- *)
+(* one scan from index i: it lands on j; s = true: the scan ran into the end of the buffer *)
+Definition fwd_step (stop : Z -> Z -> Prop) (L : Z) (i j : Z) (s : bool) : Prop :=
+  i <= j /\ (forall k, i < k < j -> ~ stop i k) /\
+  (if s then j = L - 1 /\ (i < j -> ~ stop i j) else i < j /\ stop i j).
+Definition bwd_step (stop : Z -> Z -> Prop) (i j : Z) (s : bool) : Prop :=
+  j <= i /\ (forall k, j < k < i -> ~ stop i k) /\ (if s then j = 0 else j < i /\ stop i j).
+(* n scans in a row (for (i = 0; i < cnt; i++) if (scan()) break;) *)
+Inductive chain (step : Z -> Z -> bool -> Prop) : nat -> Z -> Z -> Prop :=
+| chain_0 i : chain step 0 i i
+| chain_end n i j : step i j true -> chain step (S n) i j
+| chain_more n i j k : step i j false -> chain step n j k -> chain step (S n) i k.
+
+Lemma iter_chain b (f : Z -> Z -> option st3) (step : Z -> Z -> bool -> Prop) :
+  (forall r o, vpos b r o -> exists s r' o', f r o = Some (s, r', o') /\ vpos b r' o' /\ step (idx b r o) (idx b r' o') s) ->
+  forall n r o, vpos b r o ->
+  exists r' o', iter_break n (wstep f) (r, o) = Some (r', o') /\ vpos b r' o' /\ chain step n (idx b r o) (idx b r' o').
+Proof.
+  intros Hf. induction n as [|n IH]; intros r o V; cbn [iter_break].
+  - exists r, o. split; [reflexivity|]. split; [exact V|constructor].
+  - destruct (Hf r o V) as (s & r1 & o1 & E & V1 & S1). unfold wstep at 1. cbn [fst snd]. rewrite E. destruct s.
+    + exists r1, o1. split; [reflexivity|]. split; [exact V1|]. apply chain_end, S1.
+    + destruct (IH r1 o1 V1) as (r2 & o2 & E2 & V2 & C2). exists r2, o2. split; [exact E2|]. split; [exact V2|].
+      eapply chain_more; eauto.
+Qed.
+
+Definition word_key (k : mkey) : bool := match k with Kw | KW | Ke | KE | Kb | KB => true | _ => false end.
+Definition word_big (k : mkey) : bool := match k with KW | KE | KB => true | _ => false end.
+Definition word_chain (b : buf) (k : mkey) : nat -> Z -> Z -> Prop :=
+  match k with
+  | Kw | KW => chain (fwd_step (w_stop (fchr b) (word_big k)) (nchars b))
+  | Ke | KE => chain (fwd_step (e_stop (fchr b) (nchars b) (word_big k)) (nchars b))
+  | _ => chain (bwd_step (b_stop (fchr b) (word_big k)))
+  end.
+
+Lemma word_motion_spec b rows top cl cc pc has cnt k row off : buf_ne b -> vpos b row off -> word_key k = true ->
+  exists r' o', vi_motion b rows top cl cc pc has cnt k row off = MvOk r' o' cl cc pc /\ vpos b r' o' /\
+                word_chain b k (Z.to_nat cnt) (idx b row off) (idx b r' o').
+Proof.
+  intros NE V Hk.
+  assert (W : forall big, forall n r o, vpos b r o -> exists r' o',
+     iter_break n (wstep (lbuf_wordbeg (mfuel b) b big 1)) (r, o) = Some (r', o') /\ vpos b r' o' /\
+     chain (fwd_step (w_stop (fchr b) big) (nchars b)) n (idx b r o) (idx b r' o')).
+  { intro big. apply iter_chain. intros r o V0. destruct (wordbeg_fwd_spec b big r o NE V0) as (s & r' & o' & E & V' & H).
+    exists s, r', o'. split; [exact E|]. split; [exact V'|exact H]. }
+  assert (E : forall big, forall n r o, vpos b r o -> exists r' o',
+     iter_break n (wstep (lbuf_wordend (mfuel b) b big 1)) (r, o) = Some (r', o') /\ vpos b r' o' /\
+     chain (fwd_step (e_stop (fchr b) (nchars b) big) (nchars b)) n (idx b r o) (idx b r' o')).
+  { intro big. apply iter_chain. intros r o V0. destruct (wordend_fwd_spec b big r o NE V0) as (s & r' & o' & E & V' & H).
+    exists s, r', o'. split; [exact E|]. split; [exact V'|exact H]. }
+  assert (B : forall big, forall n r o, vpos b r o -> exists r' o',
+     iter_break n (wstep (lbuf_wordend (mfuel b) b big (-1))) (r, o) = Some (r', o') /\ vpos b r' o' /\
+     chain (bwd_step (b_stop (fchr b) big)) n (idx b r o) (idx b r' o')).
+  { intro big. apply iter_chain. intros r o V0. destruct (wordend_bwd_spec b big r o NE V0) as (s & r' & o' & E0 & V' & H).
+    exists s, r', o'. split; [exact E0|]. split; [exact V'|exact H]. }
+  destruct k; try discriminate; unfold vi_motion; cbn [vi_motionln word_chain word_big].
+  - destruct (W false (Z.to_nat cnt) row off V) as (r' & o' & E1 & V' & C). rewrite E1. exists r', o'. auto.
+  - destruct (B false (Z.to_nat cnt) row off V) as (r' & o' & E1 & V' & C). rewrite E1. exists r', o'. auto.
+  - destruct (E false (Z.to_nat cnt) row off V) as (r' & o' & E1 & V' & C). rewrite E1. exists r', o'. auto.
+  - destruct (W true (Z.to_nat cnt) row off V) as (r' & o' & E1 & V' & C). rewrite E1. exists r', o'. auto.
+  - destruct (B true (Z.to_nat cnt) row off V) as (r' & o' & E1 & V' & C). rewrite E1. exists r', o'. auto.
+  - destruct (E true (Z.to_nat cnt) row off V) as (r' & o' & E1 & V' & C). rewrite E1. exists r', o'. auto.
+Qed.
+
+Lemma cursor_ok_vpos b r o : b <> [] -> cursor_ok b r o -> vpos b r o.
+Proof.
+  intros Hb HC. unfold cursor_ok in HC. destruct (getl b r) as [l|] eqn:E.
+  - exists l. split; [exact E|]. lia.
+  - destruct HC as [HC _]. contradiction.
+Qed.
